@@ -269,6 +269,23 @@ def csv_mem_vs_stream(ctx, vlib):
                         doc = body().encode()
                         for kind in ("mem", "stream"):
                             cases.append("csvr %s 2c %s %s" % (kind, keys, doc.hex()))
+    # record endings: the last cell empty and unquoted (the text ends with the separator), empty and quoted, or plain; empty cells
+    # elsewhere; with and without the final line break; short documents and documents just above one chunk (seeded change S44)
+    for ncols in (1, 2, 3):
+        hdr = ["k%d" % j for j in range(ncols)]
+        keys = ",".join(h.encode().hex() for h in hdr)
+        for eol in ("\r\n", "\n"):
+            for final in (True, False):
+                for last in ("", '""', "a", "\u00e9"):
+                    for first_empty in (False, True):
+                        for nrows in (1, 2, 40):
+                            lines = [",".join(hdr)]
+                            for r in range(nrows - 1):
+                                lines.append(",".join(("" if (first_empty and j == 0) else str(r * 7 + j)) for j in range(ncols)))
+                            lines.append(",".join(["" if first_empty else "1"] * (ncols - 1) + [last]))
+                            doc = (eol.join(lines) + (eol if final else "")).encode()
+                            for kind in ("mem", "stream"):
+                                cases.append("csvr %s 2c %s %s" % (kind, keys, doc.hex()))
     outs = vlib.run_driver(impl, cases)
     failing, classes = [], {}
     for i in range(0, len(cases), 2):
